@@ -315,6 +315,19 @@ pub fn parse_currency_non_commodity(input: &str) -> Result<String, ParseError> {
 
 /// Parse amount with optional decimal places
 pub fn parse_amount(input: &str) -> Result<f64, ParseError> {
+    // Only digits and a single decimal separator are allowed (no sign, exponent, NaN, inf)
+    let separators = input.chars().filter(|c| *c == ',' || *c == '.').count();
+    if !input.starts_with(|c: char| c.is_ascii_digit())
+        || separators > 1
+        || !input
+            .chars()
+            .all(|c| c.is_ascii_digit() || c == ',' || c == '.')
+    {
+        return Err(ParseError::InvalidFormat {
+            message: format!("Invalid amount format: {}", input),
+        });
+    }
+
     // Remove any commas (European decimal separator handling)
     let normalized = input.replace(',', ".");
 
